@@ -5,7 +5,9 @@ cd "$(dirname "$0")/.."
 fail=0
 for d in seeded/*/; do
   id=$(basename "$d")
-  prop=$(python3 -c "import json;print(json.load(open('$d/meta.json'))['property'])")
+  # the check that decides it: its own property's, unless meta.json names another one (a change made against one
+  # statement that the fragment of another statement covers)
+  prop=$(python3 -c "import json;m=json.load(open('$d/meta.json'));print(m.get('detected_by', m['property']))")
   want=$(python3 -c "import json;print(json.load(open('$d/meta.json')).get('now', {}).get('exit', 1))")   # 0 only for changes recorded as not decidable
   out=$(./selftest/try_patch.sh "$id" "$PWD/$d/patch.diff" - "$prop")
   echo "$out"
